@@ -24,6 +24,8 @@ def run(col, configs, tier):
         guarded(col, X.rule_slice_contiguity, facts)
         guarded(col, S.rule_end_of_buffer_neutral, facts)
         guarded(col, S.rule_lookaround_kind, facts)
+        guarded(col, S.rule_run_skip_bound, facts)
         guarded(col, S.rule_skip_zeros_unit, facts)
         guarded(col, X.rule_raw_digit_scans, facts)
         guarded(col, X.rule_grammar_guards, facts)
+        guarded(col, X.rule_empty_component_counts_digits, facts)
